@@ -113,12 +113,15 @@ def _stub_classes(torch, gpytorch):
         def loss(self):
             return torch.tensor(7e6, dtype=D)
 
+    def add_priors(module, ks):
+        for k in ks:
+            module.register_parameter("p%d" % k, torch.nn.Parameter(torch.zeros(k, dtype=D)))
+            module.register_prior("p%d_prior" % k, StubPrior(k), "p%d" % k)
+
     class StubModel(gpytorch.models.ApproximateGP):
-        def __init__(self, np_, nl):
+        def __init__(self, ks, nl):
             super().__init__(StubStrategy())
-            for k in range(1, np_ + 1):
-                self.register_parameter("p%d" % k, torch.nn.Parameter(torch.zeros(k, dtype=D)))
-                self.register_prior("p%d_prior" % k, StubPrior(k), "p%d" % k)
+            add_priors(self, ks)
             for j in range(nl):
                 self.register_added_loss_term("l%d" % j)
                 self.update_added_loss_term("l%d" % j, StubLoss())
@@ -126,18 +129,30 @@ def _stub_classes(torch, gpytorch):
         def forward(self, x):
             raise RuntimeError("stub model: forward must not be called")
 
-    return StubLik, StubModel
+    return StubLik, StubModel, add_priors
+
+
+def prior_sites(cf):
+    """(prior numbers on the model, prior numbers on the likelihood)"""
+    ks = list(range(1, cf["np"] + 1))
+    site = cf.get("psite", "model")
+    if site == "model":
+        return ks, []
+    if site == "likelihood":
+        return [], ks
+    return ks[:1], ks[1:]
 
 
 def cf_desc(cf):
-    return "%s B=%d N=%d beta=%s combine_terms=%s priors=%d added=%d event-rank=%d" % (
-        cf["obj"], cf["B"], cf["N"], Fraction(*cf["beta"]), cf["combine"], cf["np"], cf["nl"], cf["rank"])
+    return "%s B=%d N=%d beta=%s combine_terms=%s priors=%d(on %s) added=%d event-rank=%d" % (
+        cf["obj"], cf["B"], cf["N"], Fraction(*cf["beta"]), cf["combine"], cf["np"], cf.get("psite", "model"), cf["nl"], cf["rank"])
 
 
 def run_asm(torch, gpytorch, c):
     cf, exp = c["cf"], c["exp"]
     D = torch.float64
-    StubLik, StubModel = _stub_classes(torch, gpytorch)
+    StubLik, StubModel, add_priors = _stub_classes(torch, gpytorch)
+    on_model, on_lik = prior_sites(cf)
     B, N = cf["B"], cf["N"]
     beta = float(Fraction(*cf["beta"]))
     desc = cf_desc(cf)
@@ -153,17 +168,18 @@ def run_asm(torch, gpytorch, c):
     else:
         dist = gpytorch.distributions.MultitaskMultivariateNormal(torch.randn(B, 2, generator=g, dtype=D), torch.eye(2 * B, dtype=D))
         y = torch.randn(B, 2, generator=g, dtype=D)
-    model = StubModel(cf["np"], cf["nl"])
+    model = StubModel(on_model, cf["nl"])
     kw = dict(num_data=N, beta=beta, combine_terms=cf["combine"])
     coef = {k: fr(v) for k, v in exp["coef"].items()}
     if cf["obj"] == "gamma":
         lik = gpytorch.likelihoods.GaussianLikelihood().to(D)
         lik.noise = 0.5
+        add_priors(lik, on_lik)
         # the per-point terms, measured on one-point batches of the same class (B = N = 1: the term enters with factor one)
         pts = []
         for i in range(B):
             di = gpytorch.distributions.MultivariateNormal(mean[i:i + 1], torch.diag(var[i:i + 1]))
-            ok, t = core.guarded(lambda: gpytorch.mlls.GammaRobustVariationalELBO(lik, StubModel(0, 0), num_data=1, beta=1.0, combine_terms=False)(di, y[i:i + 1]))
+            ok, t = core.guarded(lambda: gpytorch.mlls.GammaRobustVariationalELBO(gpytorch.likelihoods.GaussianLikelihood().to(D).initialize(noise=0.5), StubModel([], 0), num_data=1, beta=1.0, combine_terms=False)(di, y[i:i + 1]))
             if not ok:
                 res.update(ok=False, sig=base + "/raises", detail="%s: one-point objective raises %s" % (desc, t))
                 return res
@@ -173,7 +189,9 @@ def run_asm(torch, gpytorch, c):
     else:
         want_lik = rat(exp["terms"][0])
         cls = gpytorch.mlls.VariationalELBO if cf["obj"] == "elbo" else gpytorch.mlls.PredictiveLogLikelihood
-        mk = lambda: cls(StubLik(), model, **kw)   # noqa
+        slik = StubLik()
+        add_priors(slik, on_lik)
+        mk = lambda: cls(slik, model, **kw)   # noqa
     want_terms = [want_lik, rat(exp["terms"][1]), rat(exp["terms"][2]), rat(exp["terms"][3])]
     want_val = want_terms[0] - want_terms[1] + want_terms[2] - want_terms[3]
     if cf["obj"] != "gamma" and abs(want_val - rat(exp["val"])) > 1e-9 * max(1.0, abs(want_val)):
@@ -222,7 +240,7 @@ def build_model(torch, gpytorch, strat, dist, Z, kernel, mean, jitter=None):
 
     class SVGP(gpytorch.models.ApproximateGP):
         def __init__(s_):
-            vd = dcls(Z.size(0))
+            vd = dcls(Z.size(-2), batch_shape=Z.shape[:-2])
             kw = {} if jitter is None else dict(jitter_val=jitter)
             super().__init__(scls(s_, Z, vd, learn_inducing_locations=False, **kw))
             s_.mean_module = mean
@@ -233,20 +251,23 @@ def build_model(torch, gpytorch, strat, dist, Z, kernel, mean, jitter=None):
     return SVGP().to(torch.float64)
 
 
-def prior_blocks(torch, model, X, jit):
-    """the prior the model evaluates to: Kzz (+ jitter, as the strategy adds it), Kzx, diag Kxx, Kxx, mz, mx"""
+def prior_blocks(torch, model, X, jit, bi=None):
+    """the prior the model evaluates to: Kzz (+ jitter, as the strategy adds it), Kzx, diag Kxx, Kxx, mz, mx (of batch element bi)"""
+    pick = (lambda t: t) if bi is None else (lambda t: t[bi])
     with torch.no_grad():
         Z = model.variational_strategy.inducing_points
-        Kzz = model.covar_module(Z).to_dense() + jit * torch.eye(Z.size(0), dtype=torch.float64)
-        Kzx = model.covar_module(Z, X).to_dense()
-        Kxx = model.covar_module(X).to_dense()
-        return dict(Kzz=Kzz.clone(), Kzx=Kzx.clone(), Kxx=Kxx.clone(), mz=model.mean_module(Z).clone(), mx=model.mean_module(X).clone(), L=torch.linalg.cholesky(Kzz))
+        Kzz = pick(model.covar_module(Z).to_dense()) + jit * torch.eye(Z.size(-2), dtype=torch.float64)
+        Kzx = pick(model.covar_module(Z, X).to_dense())
+        Kxx = pick(model.covar_module(X).to_dense())
+        return dict(Kzz=Kzz.clone(), Kzx=Kzx.clone(), Kxx=Kxx.clone(), mz=pick(model.mean_module(Z)).clone(), mx=pick(model.mean_module(X)).clone(),
+                    L=torch.linalg.cholesky(Kzz))
 
 
-def set_q(torch, model, strat, dist, P, m, S):
-    """put q(u) = N(m, S) (distribution of u = f(Z) itself) into the model's variational parameters"""
+def set_q(torch, model, strat, dist, P, m, S, bi=None):
+    """put q(u) = N(m, S) (distribution of u = f(Z) itself) into the model's variational parameters (of batch element bi)"""
     vs = model.variational_strategy
     vd = vs._variational_distribution
+    pick = (lambda t: t) if bi is None else (lambda t: t[bi])
     with torch.no_grad():
         if strat == "whitened":
             mw = torch.linalg.solve_triangular(P["L"], (m - P["mz"]).unsqueeze(-1), upper=False).squeeze(-1)
@@ -255,27 +276,28 @@ def set_q(torch, model, strat, dist, P, m, S):
         else:
             mw, Sw = m, S
         if dist == "cholesky":
-            vd.variational_mean.copy_(mw)
-            vd.chol_variational_covar.copy_(torch.linalg.cholesky(Sw))
+            pick(vd.variational_mean).copy_(mw)
+            pick(vd.chol_variational_covar).copy_(torch.linalg.cholesky(Sw))
         else:
             Pw = torch.linalg.inv(Sw)
             Pw = 0.5 * (Pw + Pw.transpose(-1, -2))
-            vd.natural_vec.copy_(Pw @ mw)
+            pick(vd.natural_vec).copy_(Pw @ mw)
             if dist == "natural":
-                vd.natural_mat.copy_(-0.5 * Pw)
+                pick(vd.natural_mat).copy_(-0.5 * Pw)
             else:
                 Lw = torch.linalg.cholesky(Sw)      # S = L L^T,  natural_tril_mat = L^-1  (S^-1 = T^T T)
-                vd.natural_tril_mat.copy_(torch.linalg.solve_triangular(Lw, torch.eye(Sw.size(-1), dtype=torch.float64), upper=False))
+                pick(vd.natural_tril_mat).copy_(torch.linalg.solve_triangular(Lw, torch.eye(Sw.size(-1), dtype=torch.float64), upper=False))
         vs.variational_params_initialized.fill_(1)
 
 
-def get_q(torch, model, strat, P):
-    """q(u) of u = f(Z) as the model's variational distribution states it (mean, covariance)"""
+def get_q(torch, model, strat, P, bi=None):
+    """q(u) of u = f(Z) as the model's variational distribution states it (mean, covariance) (of batch element bi)"""
     vs = model.variational_strategy
     vs._clear_cache()
+    pick = (lambda t: t) if bi is None else (lambda t: t[bi])
     with torch.no_grad():
         q = vs.variational_distribution
-        mw, Sw = q.mean.clone(), q.covariance_matrix.clone()
+        mw, Sw = pick(q.mean).clone(), pick(q.covariance_matrix).clone()
     if strat == "whitened":
         return P["mz"] + P["L"] @ mw, P["L"] @ Sw @ P["L"].T
     return mw, Sw
@@ -429,64 +451,108 @@ def run_ngdrat(torch, gpytorch, c):
 
 # ---------------------------------------------------------------------------------------------
 # (L2) seeded SVGP models
-def make_kernel(torch, gpytorch, kern, d, g):
+# registered priors of the real-model cells: (site, parameter, family, arguments); the definition adds (1/N) sum of their log densities
+PRIOR_SPECS = {"lengthscale": ("gamma", 3.0, 6.0), "outputscale": ("gamma", 2.0, 0.5), "constant": ("normal", 0.0, 2.0), "noise": ("gamma", 1.5, 3.0)}
+
+
+def _prior(gpytorch, name):
+    fam, a, b = PRIOR_SPECS[name]
+    return gpytorch.priors.GammaPrior(a, b) if fam == "gamma" else gpytorch.priors.NormalPrior(a, b)
+
+
+def make_kernel(torch, gpytorch, kern, d, ls, osc, bs, with_priors=False):
+    """ScaleKernel(base) with batch shape bs; ls: (*bs, 1, 1 or d), osc: bs"""
     K = gpytorch.kernels
-    D = torch.float64
-    u = lambda lo, hi, *sh: lo + (hi - lo) * torch.rand(*sh, generator=g, dtype=D)   # noqa
-    if kern == "rbf":
-        k = K.ScaleKernel(K.RBFKernel()).to(D)
-        k.base_kernel.lengthscale = float(u(0.4, 0.9, 1))
-    elif kern == "matern":
-        k = K.ScaleKernel(K.MaternKernel(nu=1.5)).to(D)
-        k.base_kernel.lengthscale = float(u(0.5, 1.2, 1))
+    kw = dict(lengthscale_prior=_prior(gpytorch, "lengthscale")) if with_priors else {}
+    if kern == "matern":
+        base = K.MaternKernel(nu=1.5, batch_shape=bs, **kw)
+    elif kern == "rbf":
+        base = K.RBFKernel(batch_shape=bs, **kw)
     else:
-        k = K.ScaleKernel(K.RBFKernel(ard_num_dims=d)).to(D)
-        k.base_kernel.lengthscale = u(0.4, 1.0, 1, d)
-    k.outputscale = float(u(0.7, 1.8, 1))
+        base = K.RBFKernel(ard_num_dims=d, batch_shape=bs, **kw)
+    k = K.ScaleKernel(base, batch_shape=bs, **(dict(outputscale_prior=_prior(gpytorch, "outputscale")) if with_priors else {})).to(torch.float64)
+    k.base_kernel.lengthscale = ls
+    k.outputscale = osc
     return k
 
 
+def draw_element(torch, gpytorch, cell, g, n, m, d):
+    """one GP regression problem (data, inducing points, hyperparameter values); None when no well-conditioned instance is found"""
+    D = torch.float64
+    u = lambda lo, hi, *sh: lo + (hi - lo) * torch.rand(*sh, generator=g, dtype=D)   # noqa
+    kern = cell["kern"]
+    ls = u(0.4, 0.9, 1, 1) if kern == "rbf" else (u(0.5, 1.2, 1, 1) if kern == "matern" else u(0.4, 1.0, 1, d))
+    osc = u(0.7, 1.8, 1)[0]
+    mc = float(torch.randn(1, generator=g, dtype=D) * 0.5) if cell["mean"] == "constant" else 0.0
+    noise = float(osc) * float(0.08 + 0.3 * torch.rand(1, generator=g, dtype=D))
+    kernel = make_kernel(torch, gpytorch, kern, d, ls, osc, torch.Size([]))
+    X = torch.rand(n, d, generator=g, dtype=D) * 2
+    y = torch.sin(2 * X[:, 0]) + 0.5 * X[:, 1] + 0.3 * torch.randn(n, generator=g, dtype=D) + mc
+    with torch.no_grad():
+        if cell["sec"] == "equal":          # the inducing points are the data inputs
+            for attempt in range(30):
+                if float(torch.linalg.cond(kernel(X[:m]).to_dense())) <= 1e4:
+                    break
+                X = torch.rand(n, d, generator=g, dtype=D) * 2
+            else:
+                return None
+            X, y = X[:m].clone(), y[:m].clone()
+            Z = X.clone()
+        else:
+            for attempt in range(30):
+                Z = torch.rand(m, d, generator=g, dtype=D) * 2
+                if float(torch.linalg.cond(kernel(Z).to_dense())) <= 1e4:
+                    break
+            else:
+                return None
+        if float(torch.linalg.cond(kernel(X).to_dense() + noise * torch.eye(X.size(0), dtype=D))) > 1e4:
+            return None
+    return dict(X=X, y=y, Z=Z, ls=ls, osc=osc, mc=mc, noise=noise)
+
+
 def seeded_problem(torch, gpytorch, cell, seed, dist):
-    """data, model, likelihood of a lattice cell; None when no well-conditioned instance is found"""
+    """data, model, likelihood of a lattice cell (batch shape () / (1,) / (2,): independent problems stacked); None when no
+    well-conditioned instance is found"""
     D = torch.float64
     g = torch.Generator().manual_seed(seed)
     d = 2
     n = 8 + int(torch.randint(0, 6, (1,), generator=g))
     m = 3 + int(torch.randint(0, 3, (1,), generator=g))
-    X = torch.rand(n, d, generator=g, dtype=D) * 2
-    kernel = make_kernel(torch, gpytorch, cell["kern"], d, g)
-    mean = gpytorch.means.ConstantMean() if cell["mean"] == "constant" else gpytorch.means.ZeroMean()
-    mean = mean.to(D)
+    nb = cell.get("batch", 0)
+    els = [draw_element(torch, gpytorch, cell, g, n, m, d) for _ in range(max(1, nb))]
+    if any(e is None for e in els):
+        return None
+    bs = torch.Size([nb]) if nb else torch.Size([])
+    st = (lambda key: torch.stack([e[key] for e in els])) if nb else (lambda key: els[0][key])
+    sites = {"none": (), "model": ("model",), "likelihood": ("likelihood",), "both": ("model", "likelihood")}[cell.get("priors", "none")]
+    kernel = make_kernel(torch, gpytorch, cell["kern"], d, st("ls"), st("osc"), bs, with_priors="model" in sites)
     if cell["mean"] == "constant":
-        mean.constant = float(torch.randn(1, generator=g, dtype=D) * 0.5)
-    lik = gpytorch.likelihoods.GaussianLikelihood().to(D)
-    lik.noise = float(kernel.outputscale) * float(0.08 + 0.3 * torch.rand(1, generator=g, dtype=D))
-    with torch.no_grad():
-        y = torch.sin(2 * X[:, 0]) + 0.5 * X[:, 1] + 0.3 * torch.randn(n, generator=g, dtype=D) + float(mean(X[:1]))
-    if cell["sec"] == "equal":          # the inducing points are the data inputs
-        for attempt in range(30):
-            with torch.no_grad():
-                if float(torch.linalg.cond(kernel(X[:m]).to_dense())) <= 1e4:
-                    break
-            X = torch.rand(n, d, generator=g, dtype=D) * 2
-        else:
-            return None
-        X, y = X[:m].clone(), y[:m].clone()
-        n = m
-        Z = X.clone()
+        mean = gpytorch.means.ConstantMean(batch_shape=bs, **(dict(constant_prior=_prior(gpytorch, "constant")) if "model" in sites else {})).to(D)
+        mean.constant = torch.tensor([e["mc"] for e in els], dtype=D) if nb else els[0]["mc"]
     else:
-        for attempt in range(30):
-            Z = torch.rand(m, d, generator=g, dtype=D) * 2
-            with torch.no_grad():
-                if float(torch.linalg.cond(kernel(Z).to_dense())) <= 1e4:
-                    break
-        else:
-            return None
-    with torch.no_grad():
-        if float(torch.linalg.cond(kernel(X).to_dense() + lik.noise * torch.eye(n, dtype=D))) > 1e4:
-            return None
-    model = build_model(torch, gpytorch, cell["strat"], dist, Z, kernel, mean)
-    return model, lik, X, y, g
+        mean = gpytorch.means.ZeroMean(batch_shape=bs).to(D)
+    lik = gpytorch.likelihoods.GaussianLikelihood(batch_shape=bs, **(dict(noise_prior=_prior(gpytorch, "noise")) if "likelihood" in sites else {})).to(D)
+    lik.noise = torch.tensor([[e["noise"]] for e in els], dtype=D) if nb else els[0]["noise"]
+    model = build_model(torch, gpytorch, cell["strat"], dist, st("Z"), kernel, mean)
+    return model, lik, st("X"), st("y"), g, sites
+
+
+def log_prior_sum(torch, model, lik, sites):
+    """sum of the log densities of every registered prior, from torch.distributions and the constrained parameter values"""
+    import torch.distributions as td
+    vals = []
+    if "model" in sites:
+        vals += [("lengthscale", model.covar_module.base_kernel.lengthscale), ("outputscale", model.covar_module.outputscale)]
+        if hasattr(model.mean_module, "constant"):
+            vals.append(("constant", model.mean_module.constant))
+    if "likelihood" in sites:
+        vals.append(("noise", lik.noise))
+    tot = 0.0
+    for name, v in vals:
+        fam, a, b = PRIOR_SPECS[name]
+        dist = td.Gamma(torch.tensor(a, dtype=torch.float64), torch.tensor(b, dtype=torch.float64)) if fam == "gamma" else td.Normal(torch.tensor(a, dtype=torch.float64), torch.tensor(b, dtype=torch.float64))
+        tot += float(dist.log_prob(v.detach()).sum())
+    return tot, len(vals)
 
 
 def logn(torch, y, mean, C):
@@ -549,8 +615,9 @@ def q_family(torch, qfam, P, R, g):
     raise core.Machinery("unknown q family %s" % qfam)
 
 
-def check_definition(torch, gpytorch, res, desc, base, model, lik, X, y, batches, s2):
-    """(b) value of VariationalELBO / PredictiveLogLikelihood on minibatches vs the definition from the model's own q(f), noise and KL"""
+def check_definition(torch, gpytorch, res, desc, base, model, lik, X, y, batches, s2, lp=0.0, nprior=0):
+    """(b) value of VariationalELBO / PredictiveLogLikelihood on minibatches vs the definition from the model's own q(f), noise and KL
+    and the log densities lp of the nprior registered priors (model's and likelihood's)"""
     for (idx, N, beta) in batches:
         Xb, yb = X[idx], y[idx]
         for cls, name in ((gpytorch.mlls.VariationalELBO, "elbo"), (gpytorch.mlls.PredictiveLogLikelihood, "pll")):
@@ -563,13 +630,15 @@ def check_definition(torch, gpytorch, res, desc, base, model, lik, X, y, batches
                 per = -0.5 * math.log(2 * math.pi * s2) - ((yb - mu) ** 2 + var) / (2 * s2)
             else:
                 per = -0.5 * torch.log(2 * math.pi * (var + s2)) - (yb - mu) ** 2 / (2 * (var + s2))
-            want = float(per.sum()) / len(idx) - beta / N * float(kl)
+            want = float(per.sum()) / len(idx) - beta / N * float(kl) + lp / N
             ok, why = core.close(float(val), want, 1e-9, 1e-11)
             res["n"] = res.get("n", 0) + 1
             if not ok:
-                res.update(ok=False, sig=base + "/%s/definition" % name,
-                           detail="%s: minibatch %s of %d points, num_data=%d, beta=%s: %s = %r but (1/B) sum_i term_i - (beta/N) KL = %r with the model's own q(f) and KL=%r: %s" % (
-                               desc, idx, X.size(0), N, beta, cls.__name__, float(val), want, float(kl), why))
+                noprior = nprior and core.close(float(val), want - lp / N, 1e-9, 1e-11)[0]
+                res.update(ok=False, sig=base + "/%s/%s" % (name, "prior-term" if nprior and abs(lp / N) > 1e-8 and (noprior or abs(float(val) - want) <= 1.01 * abs(lp / N) + 1e-9) else "definition"),
+                           detail="%s: minibatch %s of %d points, num_data=%d, beta=%s: %s = %r but (1/B) sum_i term_i - (beta/N) KL + (1/N) log priors = %r with the model's own q(f), "
+                                  "KL=%r and %d registered priors with total log density %r: %s" % (
+                               desc, idx, X.size(0), N, beta, cls.__name__, float(val), want, float(kl), nprior, lp, why))
                 return False
     return True
 
@@ -592,22 +661,27 @@ def run_cell(torch, gpytorch, c):
     if prob is None:
         res.update(nontrivial=False, skipped=True)
         return res
-    model, lik, X, y, g = prob
-    n = X.size(0)
-    s2 = float(lik.noise)
+    model, lik, X, y, g, sites = prob
+    nb = cell.get("batch", 0)
+    elems = list(range(nb)) if nb else [None]
+    at = lambda t, e: t if e is None else t[e]   # noqa
+    n = X.size(-2)
+    s2s = [float(at(lik.noise, e)) for e in elems]
     jit = float(model.variational_strategy.jitter_val)
-    desc = "SVGP %s seed=%d n=%d m=%d noise=%.3g" % (lab, seed, n, model.variational_strategy.inducing_points.size(0), s2)
+    desc = "SVGP %s seed=%d n=%d m=%d noise=%s" % (lab, seed, n, model.variational_strategy.inducing_points.size(-2), ",".join("%.3g" % v for v in s2s))
     base = {"bound": "C15/svgp/%s/%s" % (cell["strat"], cell["kern"]), "equal": "C15/svgp/%s/inducing-equal-inputs" % cell["strat"],
-            "ngd": "C15/ngd/%s/%s" % (cell["strat"], cell.get("dist"))}[sec]
+            "ngd": "C15/ngd/%s/%s%s" % (cell["strat"], cell.get("dist"), "/batch%d" % nb if nb else "")}[sec]
     model.train()
     lik.train()
     ok, err = core.guarded(lambda: model(X))      # first call: the strategy initialises q(u) from its prior
     if not ok:
         res.update(ok=False, sig=base + "/raises", detail="%s: first call raises %s" % (desc, err))
         return res
-    P = prior_blocks(torch, model, X, jit)
-    R = reference(torch, P, y, s2, jit)
+    lp, nprior = log_prior_sum(torch, model, lik, sites)
+    Ps = [prior_blocks(torch, model, X, jit, e) for e in elems]
+    Rs = [reference(torch, P, at(y, e), s2, jit) for P, e, s2 in zip(Ps, elems, s2s)]
     if sec == "equal":
+        P, R, s2 = Ps[0], Rs[0], s2s[0]
         Se = torch.linalg.inv(torch.linalg.inv(P["Kzz"]) + torch.eye(n, dtype=D) / s2)
         R["eq"] = dict(ex=logn(torch, y, P["mx"], P["Kzz"] + s2 * torch.eye(n, dtype=D)), ms=P["mz"] + Se @ (y - P["mx"]) / s2, Ss=0.5 * (Se + Se.T))
     rint = random.Random(seed)
@@ -616,61 +690,66 @@ def run_cell(torch, gpytorch, c):
     start = cell["start"] if sec == "ngd" else cell["qfam"]
     if start != "init":
         try:
-            m0, S0 = q_family(torch, start, P, R, g)
-            set_q(torch, model, cell["strat"], dist, P, m0, S0)
+            for P, R, e in zip(Ps, Rs, elems):
+                m0, S0 = q_family(torch, start, P, R, g)
+                set_q(torch, model, cell["strat"], dist, P, m0, S0, e)
         except core.Machinery:
             raise
-        except Exception as e:   # noqa
-            return dict(machinery="could not set q(u) for %s: %s: %s" % (desc, type(e).__name__, e))
-    mq, Sq = get_q(torch, model, cell["strat"], P)          # q(u) as the model states it
+        except Exception as ex:   # noqa
+            return dict(machinery="could not set q(u) for %s: %s: %s" % (desc, type(ex).__name__, ex))
+    qs = [get_q(torch, model, cell["strat"], P, e) for P, e in zip(Ps, elems)]          # q(u) as the model states it
 
-    def full_elbo():
+    def check_bound(tag, qs, expect_opt):
+        """(c) per batch element: N * ELBO <= log marginal; = collapsed - KL(q || q_opt); attained at q_opt"""
         okk, got = core.guarded(lambda: objective(torch, gpytorch, V, model, lik, X, y, n))
-        return (okk, float(got[0]) * n) if okk else (okk, got)
-
-    def check_bound(tag, mq, Sq, expect_opt):
-        """(c) N * ELBO <= log marginal; = collapsed - KL(q || q_opt); attained at q_opt"""
-        okk, E = full_elbo()
         if not okk:
-            res.update(ok=False, sig=base + "/raises", detail="%s %s: %s" % (desc, tag, E))
+            res.update(ok=False, sig=base + "/raises", detail="%s %s: %s" % (desc, tag, got))
             return None
-        res["n"] += 1
-        rt = 1e-6
-        top = max(R["ex"], R["exj"])
-        if E > top + 1e-9 * max(1.0, abs(top)):
-            res.update(ok=False, sig=base + "/bound", detail="%s %s: N * ELBO = %r exceeds the exact log marginal likelihood %r (%r with the jitter %g on the diagonal)" % (desc, tag, E, R["ex"], R["exj"], jit))
+        if tuple(got[0].shape) != ((nb,) if nb else ()):
+            res.update(ok=False, sig=base + "/shape", detail="%s %s: objective of shape %s for batch shape %s" % (desc, tag, tuple(got[0].shape), (nb,) if nb else ()))
             return None
-        klq = kl_gauss(torch, mq, Sq, R["ms"], R["Ss"])
-        if klq < -1e-9:
-            raise core.Machinery("negative KL to the optimal q(u)")
-        if "eq" in R:
-            # the batch IS the inducing set and the strategy may return q(u) itself (f = u): then the prior of f carries the jitter of
-            # Kzz in every block, the bound is log N(y; m, Kzz + jitter + s2 I) and the optimum its posterior; either reading is accepted
-            kl2 = kl_gauss(torch, mq, Sq, R["eq"]["ms"], R["eq"]["Ss"])
-            if abs(E - (R["eq"]["ex"] - kl2)) <= rt * max(1.0, abs(E)) + 1e-9:
-                return E, kl2
-        if not within(E, R["col1"] - klq, R["col0"] - klq, rt):
-            res.update(ok=False, sig=base + ("/collapsed-attained" if expect_opt else "/gap-is-kl"),
-                       detail="%s %s: N * ELBO = %r; collapsed bound %r (%r with jitter on diag Kxx) minus KL(q(u) || optimal q(u)) = %r gives %r" % (
-                           desc, tag, E, R["col0"], R["col1"], klq, R["col0"] - klq))
-            return None
-        if expect_opt:
-            if not within(E, R["col1"], R["col0"], rt):
-                res.update(ok=False, sig=base + "/collapsed-attained", detail="%s %s: N * ELBO = %r, collapsed bound %r (%r with jitter on diag Kxx)" % (desc, tag, E, R["col0"], R["col1"]))
+        out = None
+        for (mq, Sq), R, e in zip(qs, Rs, elems):
+            E = float(at(got[0], e)) * n - lp           # the registered priors enter N * ELBO with their total log density
+            tg = tag if e is None else "%s, batch element %d" % (tag, e)
+            res["n"] += 1
+            rt = 1e-6
+            top = max(R["ex"], R["exj"])
+            if E > top + 1e-9 * max(1.0, abs(top)):
+                res.update(ok=False, sig=base + "/bound", detail="%s %s: N * ELBO = %r exceeds the exact log marginal likelihood %r (%r with the jitter %g on the diagonal)" % (desc, tg, E, R["ex"], R["exj"], jit))
                 return None
-        return E, klq
+            klq = kl_gauss(torch, mq, Sq, R["ms"], R["Ss"])
+            if klq < -1e-9:
+                raise core.Machinery("negative KL to the optimal q(u)")
+            if "eq" in R:
+                # the batch IS the inducing set and the strategy may return q(u) itself (f = u): then the prior of f carries the jitter of
+                # Kzz in every block, the bound is log N(y; m, Kzz + jitter + s2 I) and the optimum its posterior; either reading is accepted
+                kl2 = kl_gauss(torch, mq, Sq, R["eq"]["ms"], R["eq"]["Ss"])
+                if abs(E - (R["eq"]["ex"] - kl2)) <= rt * max(1.0, abs(E)) + 1e-9:
+                    out = out or (E, kl2)
+                    continue
+            if not within(E, R["col1"] - klq, R["col0"] - klq, rt):
+                res.update(ok=False, sig=base + ("/collapsed-attained" if expect_opt else "/gap-is-kl"),
+                           detail="%s %s: N * ELBO = %r; collapsed bound %r (%r with jitter on diag Kxx) minus KL(q(u) || optimal q(u)) = %r gives %r" % (
+                               desc, tg, E, R["col0"], R["col1"], klq, R["col0"] - klq))
+                return None
+            if expect_opt and not within(E, R["col1"], R["col0"], rt):
+                res.update(ok=False, sig=base + "/collapsed-attained", detail="%s %s: N * ELBO = %r, collapsed bound %r (%r with jitter on diag Kxx)" % (desc, tg, E, R["col0"], R["col1"]))
+                return None
+            out = out or (E, klq)
+        return out
 
     if sec in ("bound", "equal"):
-        if not check_definition(torch, gpytorch, res, desc, base, model, lik, X, y, batches, s2):
+        if not check_definition(torch, gpytorch, res, desc, base, model, lik, X, y, batches, s2s[0], lp, nprior):
             return res
-        r = check_bound("q(u)=%s" % start, mq, Sq, start == "post")
+        r = check_bound("q(u)=%s" % start, qs, start == "post")
         if r is None:
             return res
-        res["sample"] = dict(case=desc, N_ELBO=r[0], collapsed=R["col0"], log_marginal=R["ex"], KL_to_optimal_q=r[1])
+        res["sample"] = dict(case=desc, N_ELBO=r[0], collapsed=Rs[0]["col0"], log_marginal=Rs[0]["ex"], KL_to_optimal_q=r[1], registered_priors=nprior, log_prior_total=lp)
         res["gap"] = r[1]
         return res
 
-    # ---- (d) natural gradient
+    # ---- (d) natural gradient (batch shape (b,): b independent GPs, one loss = sum of their objectives)
     vd = model.variational_strategy._variational_distribution
     mat = vd.natural_mat if cell["dist"] == "natural" else vd.natural_tril_mat
     nat = [vd.natural_vec, mat]
@@ -682,11 +761,11 @@ def run_cell(torch, gpytorch, c):
         ngd = gpytorch.optim.NGD(nat, num_data=n, lr=lr)
         ngd.zero_grad()
         sgd.zero_grad()
-        (-mll(model(X), y)).backward()
+        (-mll(model(X), y)).sum().backward()
         ngd.step()
         if with_hyper:
             sgd.step()
-    r0 = check_bound("start", mq, Sq, False)
+    r0 = check_bound("start", qs, False)
     if r0 is None:
         return res
     if cell["dist"] == "natural":
@@ -695,50 +774,52 @@ def run_cell(torch, gpytorch, c):
             if not ok:
                 res.update(ok=False, sig=base + "/raises", detail="%s: NGD step %d raises %s" % (desc, k, err))
                 return res
-            m1, S1 = get_q(torch, model, cell["strat"], P)
-            okm, whym = core.close(m1, R["ms"], 1e-6, 1e-8)
-            okS, whyS = core.close(S1, R["Ss"], 1e-6, 1e-8)
             clause = "one-step-optimal" if k == 1 else "fixed-point"
-            if not (okm and okS):
-                res.update(ok=False, sig=base + "/" + clause, detail="%s: after %d NGD step(s) of size 1 q(u) is not the optimal q(u): mean %s covariance %s" % (desc, k, whym or "ok", whyS or "ok"))
-                return res
-            if check_bound("after step %d" % k, m1, S1, True) is None:
+            qs1 = [get_q(torch, model, cell["strat"], P, e) for P, e in zip(Ps, elems)]
+            for (m1, S1), R, e in zip(qs1, Rs, elems):
+                okm, whym = core.close(m1, R["ms"], 1e-6, 1e-8)
+                okS, whyS = core.close(S1, R["Ss"], 1e-6, 1e-8)
+                if not (okm and okS):
+                    res.update(ok=False, sig=base + "/" + clause, detail="%s%s: after %d NGD step(s) of size 1 q(u) is not the optimal q(u): mean %s covariance %s" % (
+                        desc, "" if e is None else " batch element %d" % e, k, whym or "ok", whyS or "ok"))
+                    return res
+            if check_bound("after step %d" % k, qs1, True) is None:
                 res["sig"] = base + "/" + clause + "/elbo"
                 return res
-        res["sample"] = dict(case=desc, N_ELBO_start=r0[0], collapsed=R["col0"], steps="1 step reaches the optimum, step 2 is a fixed point")
+        res["sample"] = dict(case=desc, N_ELBO_start=r0[0], collapsed=Rs[0]["col0"], steps="1 step reaches the optimum, step 2 is a fixed point")
         return res
     # TrilNatural: natural_vec is updated with the natural gradient itself; the triangular factor with its push-forward, i.e. to first order
-    P_w = lambda S: torch.linalg.inv(S)   # noqa
-    if cell["strat"] == "whitened":
-        Li = torch.linalg.inv(P["L"])
-        to_w = lambda m, S: (Li @ (m - P["mz"]), Li @ S @ Li.T)   # noqa
-    else:
-        to_w = lambda m, S: (m, S)   # noqa
-    mw_s, Sw_s = to_w(R["ms"], R["Ss"])
-    th1_s, th2_s = P_w(Sw_s) @ mw_s, -0.5 * P_w(Sw_s)
     with torch.no_grad():
-        T0 = mat.detach().clone()
-        v0 = vd.natural_vec.detach().clone()
-    th2_0 = -0.5 * T0.T @ T0
+        T0s = mat.detach().clone()
     ok, err = core.guarded(step, 1.0, c["hyper"])
     if not ok:
         res.update(ok=False, sig=base + "/raises", detail="%s: NGD step of size 1 raises %s" % (desc, err))
         return res
     with torch.no_grad():
-        dT = mat.detach().clone() - T0
-        v1 = vd.natural_vec.detach().clone()
-    res["n"] += 1
-    ok1, why1 = core.close(v1, th1_s, 1e-6, 1e-8)
-    if not ok1:
-        res.update(ok=False, sig=base + "/vector-one-step", detail="%s: after one step of size 1 natural_vec is not the optimal natural vector: %s" % (desc, why1))
-        return res
-    # derivative of T -> -1/2 T^T T at T0 applied to the update dT (exact, no truncation error): must be the natural-gradient step theta2_opt - theta2
-    d2 = -0.5 * (dT.T @ T0 + T0.T @ dT)
-    ok2, why2 = core.close(d2, th2_s - th2_0, 1e-6, 1e-8)
-    if not ok2:
-        res.update(ok=False, sig=base + "/matrix-direction", detail="%s: the update of natural_tril_mat, pushed forward to the natural matrix -1/2 T^T T, is not the natural-gradient step: %s" % (desc, why2))
-        return res
-    res["n"] += 1
+        T1s = mat.detach().clone()
+        v1s = vd.natural_vec.detach().clone()
+    for P, R, e in zip(Ps, Rs, elems):
+        if cell["strat"] == "whitened":
+            Li = torch.linalg.inv(P["L"])
+            mw_s, Sw_s = Li @ (R["ms"] - P["mz"]), Li @ R["Ss"] @ Li.T
+        else:
+            mw_s, Sw_s = R["ms"], R["Ss"]
+        Pw_s = torch.linalg.inv(Sw_s)
+        th1_s, th2_s = Pw_s @ mw_s, -0.5 * Pw_s
+        T0, dT, v1 = at(T0s, e), at(T1s, e) - at(T0s, e), at(v1s, e)
+        th2_0 = -0.5 * T0.T @ T0
+        el = "" if e is None else " batch element %d" % e
+        res["n"] += 2
+        ok1, why1 = core.close(v1, th1_s, 1e-6, 1e-8)
+        if not ok1:
+            res.update(ok=False, sig=base + "/vector-one-step", detail="%s%s: after one step of size 1 natural_vec is not the optimal natural vector: %s" % (desc, el, why1))
+            return res
+        # derivative of T -> -1/2 T^T T at T0 applied to the update dT (exact, no truncation error): must be the natural-gradient step theta2_opt - theta2
+        d2 = -0.5 * (dT.T @ T0 + T0.T @ dT)
+        ok2, why2 = core.close(d2, th2_s - th2_0, 1e-6, 1e-8)
+        if not ok2:
+            res.update(ok=False, sig=base + "/matrix-direction", detail="%s%s: the update of natural_tril_mat, pushed forward to the natural matrix -1/2 T^T T, is not the natural-gradient step: %s" % (desc, el, why2))
+            return res
     res["sample"] = dict(case=desc, steps="natural_vec optimal after one step; matrix direction first-order exact")
     return res
 
@@ -772,7 +853,7 @@ def run(ck):
     thorough = ck.tier == "thorough"
     core.setup_torch()
     rnd = random.Random(ck.seed)
-    ck.rule = ("assembly: every configuration (objective x B x declared N x beta x combine_terms x priors x added losses x event rank) decoded on the real "
+    ck.rule = ("assembly: every configuration (objective x B x declared N x beta x combine_terms x priors x prior site (model / likelihood / split) x added losses x event rank) decoded on the real "
                "classes against TLC's exact rational value; rational: TLC's exact ELBO pieces / NGD histories on integer instances through real SVGP models; "
                "svgp/ngd cells: seeded models per lattice cell against the definition, the exact marginal, collapsed - KL(q || q_opt) and the optimal q(u). "
                "non-trivial = a scale factor differs from one (assembly), q(u) differs from the prior (rational), history of >= 2 actions (ngd), every seeded cell")
@@ -790,6 +871,10 @@ def run(ck):
         "matrix update is the natural-gradient step pushed through the derivative of T -> -1/2 T^T T (exact at 1e-6)",
         "hyperparameters are held fixed; NGD receives exactly the natural parameters; UnwhitenedVariationalStrategy is not called with inputs identical to the inducing points "
         "(its shortcut branch then keeps the 1e-3-jitter prior for the KL term)",
+        "real-model cells register GammaPrior / NormalPrior objects on the kernel lengthscale / outputscale / mean constant (site 'model') and on the likelihood noise "
+        "(site 'likelihood'); their log densities are recomputed from torch.distributions at the constrained parameter values and enter the definition with 1/N",
+        "NGD cells with batch shape (1,) and (2,) stack independent GPs (own data, inducing points, hyperparameters) into one batched model and one loss (the sum of the "
+        "objectives); every batch element must reach its own optimal q(u) / collapsed bound",
         "float64, 8-13 points, 3-5 inducing points, noise >= 8% of the signal variance, cond(Kzz), cond(Kxx + s2 I) <= 1e4 (else the cell instance is skipped and counted)",
     ]
     wd = os.path.join(tlc.BUILD, PID)
@@ -894,7 +979,7 @@ def run(ck):
     ck.section("ngd_machine", instances=len(ginst), maximal_histories=nhist, labels=sorted(labs))
     # ---- float64 lattice
     ncell = 0
-    nseeds = 30 if thorough else 2
+    nseeds = 10 if thorough else 1
     for st in r_lat.states():
         cell = plain(st["c"])
         ncell += 1
